@@ -261,7 +261,7 @@ def check_M2(ctx, facts):
     ctx.floor('C16.M2', 'watch channels in the workspace', n, 1)
 
 
-def check_M3(ctx, facts):
+def check_M3(ctx, facts, sem=False):
     consumers = []
     for b in facts.bodies.values():
         if b.crate != 'datacake_eventual_consistency' or b.kind != 'coroutine' or b.d['promoted']:
@@ -272,7 +272,8 @@ def check_M3(ctx, facts):
     ctx.floor('C16.M3', 'membership consumers in the store', len(consumers), 2)
     fields = [f['name'] for f in facts.adts[DELTA]['variants'][0]['fields']]
     all_ops = {}
-    for body in sorted(consumers, key=lambda b: b.name):
+    # (the per-consumer clauses below and M4 are decided by the consumer summary C16.SEM when it applies)
+    for body in ([] if sem else sorted(consumers, key=lambda b: b.name)):
         flow = Flow(body)
         calls = list(body.calls())
         name = body.name.replace('datacake_eventual_consistency::', '').replace('::{closure#0}', '')
@@ -332,7 +333,7 @@ def check_M3(ctx, facts):
     MUT = re.compile(r'(BTreeMap|HashMap)::(insert|remove|remove_entry|clear|retain|extend|drain|append|pop_first|pop_last|split_off|entry|'
                      r'get_mut|values_mut|iter_mut|extract_if|drain_filter|first_entry|last_entry)$')
     n_maps = 0
-    for body in sorted(consumers, key=lambda b: b.name):
+    for body in ([] if sem else sorted(consumers, key=lambda b: b.name)):
         ops = all_ops.get(body.name, [])
         name = body.name.replace('datacake_eventual_consistency::', '').replace('::{closure#0}', '')
         roots = set()
@@ -364,7 +365,10 @@ def check_M3(ctx, facts):
                'the live-member map is also changed by %s outside the joined/left handling: a node the membership layer still reports live is '
                'dropped from (or a departed one kept in) the consumer\'s peer set; the membership layer publishes a node again only when the '
                '(id, address) set changes, so replication stops addressing a live peer' % sorted({o[0] for o in offenders}))
-    ctx.floor('C16.M4', 'consumer live-member maps', n_maps, 2)
+    if not sem:
+        ctx.floor('C16.M4', 'consumer live-member maps', n_maps, 2)
+    else:
+        check_M4_roots(ctx, facts, sem, MUT)
     # the two hand-over points cannot drop an event
     for hname in ('replication::distributor::TaskDistributor::membership_change', 'replication::poller::ReplicationHandle::membership_change'):
         hb_ = facts.body('datacake_eventual_consistency::' + hname)
@@ -377,8 +381,13 @@ def check_M3(ctx, facts):
                'membership events are handed over with %s' % sorted(set(sends)) if sends and not lossy else
                'membership events can be dropped at the hand-over (%s)' % (lossy or 'no channel send'))
     # forwarder: both services get every event
-    fw = [b for b in facts.bodies.values() if b.crate == 'datacake_eventual_consistency' and b.kind == 'coroutine'
+    fw = [b for b in facts.bodies.values() if b.crate == 'datacake_eventual_consistency' and b.kind == 'coroutine' and not b.d['promoted']
           and b.name.startswith('datacake_eventual_consistency::watch_membership_changes')]
+    if not fw:
+        # by role: the task that reads the membership stream and calls the consumers' hand-over methods
+        fw = [b for b in facts.bodies.values() if b.crate == 'datacake_eventual_consistency' and b.kind == 'coroutine' and not b.d['promoted']
+              and any(cname(t) and cname(t).endswith('::membership_change') for _b, t in b.calls())
+              and any(cname(t) and cname(t).endswith('StreamExt::next') for _b, t in b.calls())]
     for b in fw:
         calls = list(b.calls())
         tgt = [(bb, t) for bb, t in calls if cname(t) and cname(t).endswith('::membership_change')]
@@ -390,6 +399,63 @@ def check_M3(ctx, facts):
                'the forwarder does not hand every event to both consumers (%s)' % sorted(last_seg(k) for k in kinds))
     if not fw:
         ctx.bad('C16.M3', 'forwarder', '', 'store-side watch_membership_changes not found')
+
+
+def check_M4_roots(ctx, facts, info, MUT):
+    """M4 beside the consumer summary: the state handed to the observation points (the arguments that held the peers in the
+    interpretation) is mutated only inside the arm that handles the membership message — value-dependent trimming outside it (a cap
+    on the peer count, a periodic clear) cannot show on a small scripted history"""
+    n = 0
+    for defp, inf in sorted(info.items()):
+        body = facts.bodies.get(defp)
+        if body is None:
+            continue
+        name = body.name.replace('datacake_eventual_consistency::', '').replace('::{closure#0}', '')
+        calls = list(body.calls())
+        roots = set()
+        for b, t in calls:
+            for callee, i in inf['peer_args']:
+                if strip_generics(t.get('callee') or '') == callee or cname(t) == callee:
+                    if i < len(t['args']) and op_local(t['args'][i]) is not None:
+                        roots |= referent_roots(body, op_local(t['args'][i]))
+        roots = {r for r in roots if r > body.argc}
+        if not roots:
+            ctx.bad('C16.M4', '%s|live-map' % name, site(body), 'the state this consumer hands to its workers could not be located in its loop (fail closed)')
+            continue
+        n += 1
+        arm = [b for b, j, s in body.assigns() for pl in rv_places(s['rv'])
+               if any(isinstance(e, dict) and e.get('n') == inf['variant'] for e in pl['p'])]
+        recvs = [b for b, t in calls if cname(t) and re.search(r'recv|StreamExt::next|Interval::tick', cname(t))]
+        in_loop = body.reachable_from(recvs) if recvs else set(range(len(body.blocks)))
+        def in_arm(b):
+            return any(a == b or body.dominates(a, b) for a in arm)
+        offenders = []
+        for b, t in calls:
+            nm = cname(t)
+            if not nm or b not in in_loop or in_arm(b):
+                continue
+            touched = False
+            for i, a in enumerate(t['args']):
+                l = op_local(a)
+                if l is None or not (referent_roots(body, l) & roots):
+                    continue
+                if (i == 0 and MUT.search(nm)) or body.local_ty(l).startswith('&mut'):
+                    touched = True
+            if touched and not any((strip_generics(t.get('callee') or '') == c or nm == c) for c, _i in inf['peer_args']):
+                offenders.append((last_seg(nm), t))
+        for b, _j, s_ in body.assigns():
+            if s_['lhs']['l'] in roots and not s_['lhs']['p'] and b in in_loop and not in_arm(b):
+                offenders.append(('assignment', s_))
+        for b, t in calls:
+            if t['dest']['l'] in roots and not t['dest']['p'] and b in in_loop and not in_arm(b):
+                offenders.append(('assignment', t))
+        good = not offenders
+        ctx.ob('C16.M4', '%s|only-events-change-the-peer-set' % name, good, site(body, offenders[0][1].get('cs') if offenders else None),
+               'the peer state handed to the workers is changed only inside the membership arm' if good else
+               'the peer state is also changed by %s outside the membership handling: a node the membership layer still reports live is '
+               'dropped from (or a departed one kept in) the consumer\'s peer set; the membership layer publishes a node again only when the '
+               '(id, address) set changes, so replication stops addressing a live peer' % sorted({o[0] for o in offenders}))
+    ctx.floor('C16.M4', 'consumer peer states', n, 2)
 
 
 def body_first_after(body, next_block):
@@ -414,4 +480,8 @@ def check(ctx):
         return
     check_M1(ctx, facts)
     check_M2(ctx, facts)
-    check_M3(ctx, facts)
+    # SEM: each consumer's service loop interpreted over a scripted membership history (consumer_abs); subsumes the per-consumer
+    # clauses of M3 and M4, which are evaluated only when a construct is not modelled
+    import consumer_abs
+    sem = consumer_abs.check_consumers(ctx, facts, 'C16.SEM')
+    check_M3(ctx, facts, sem=sem or False)
